@@ -207,16 +207,17 @@ ADDED = {
         'imports reuse a path that held another document before; files named after the other format (content decides).',
  'C02': 'Blob values whose encoding is exactly as long as the size limit; sub-interfaces under dedicated and trunk ports; results of '
         'reads are edited and read again (no aliasing); the type comes back as a member of the class\'s own vocabulary, also after '
-        'another sliver class went through the same conversions before (every ordered pair of classes, forked process per case).',
+        'another sliver class went through the same conversions before (every ordered pair of classes, forked process per case); the type '
+        'of a live element through every spelling of write and read on a handle that was read before.',
  'C03': 'Unknown fields carry values of every JSON kind (string, number, negative, float, bool, null, list, object) at every position; '
         'decoding twice after editing the first result; finalized maintenance records and their entries; data blobs: decode, edit the result, use the blob again.',
  'C04': 'File-based direct import next to the string variant, and documents whose nodes name two graphs (must be refused by both); '
         'failing imports; allocator health is part of every canonical state; states are histories replayed on library-built stores; graph id and type '
-        'rewrites as events; listings by class (and type) obey the same isolation as single reads; all file imports of a process go through one path.',
+        'rewrites as events; listings by class (and type) obey the same isolation as single reads; all file imports of a process go through one path; another importer constructed with a logger is an event.',
  'C05': 'Property bags, merge policies and id updates that contradict a node\'s identity (refused, or carried out with the identity '
         'kept); merge policies for properties only one node has and unknown policies; whole-graph NodeID, per-node GraphID, None for '
         'identity properties; agreement of the two backends on open queries; whole-graph update of the graph id (re-keying) on 4 shapes x '
-        'target id free / in use.',
+        'target id free / in use x handle constructed / handed out by cast_graph.',
  'C06': 'Directed documents imported directly, re-import seen through an older handle, merge with a neighbour graph.',
  'C07': 'Refused calls are part of the alphabet (all failing variants of C09): what they leave behind is judged by the same rules. '
         'Full type-vocabulary sweep (every node, component and service type). Roots R3 (crafted names) and R4 (switch services that '
@@ -224,16 +225,17 @@ ADDED = {
  'C08': 'Undo through an older handle; a working copy next to an older model with the same element ids; root R4 (peerings of '
         'switch services, also next to a connection); stub links over one interface; disconnecting through the wrong service.',
  'C09': 'Interfaces argument that cannot be walked (number, failing generator); nested slivers at node creation; derived names '
-        'that become too long; stale handles; links given as tuples whose returned handle is used; a new name among the values of a failing bulk update.',
+        'that become too long; stale handles; links given as tuples whose returned handle is used; a new name among the values of a failing bulk update; None-valued entries that must be refused as a whole.',
  'C10': 'History groups: validated, emptied, re-connected elsewhere (declared site); created, listed and validated once, then changed '
         'through the creation handle (grown, shrunk, swapped, nodes relocated); two peered services; nodes made by add_switch / '
-        'add_facility with the site taken away; same-named service ports; cases judged in a forked process after another slice used every service setter.',
+        'add_facility with the site taken away; same-named service ports; cases judged in a forked process after another slice used every service setter; sub-interfaces connected and removed at their parent.',
  'C11': 'A P4 switch among the nodes in every position (resource type); facilities on a site of their own, also with a service type '
-        'that has no site limit; sizing by hints or none; decoy collectors used earlier in the process.',
+        'that has no site limit; sizing by hints or none; decoy collectors used earlier in the process; mirror services with a bandwidth, requested '
+        'bandwidths read from the description.',
  'C12': 'A pool called the empty string; detail fields set to an empty string / list; re-indexing after a change against a '
         'container built from scratch; decoding twice.',
  'C13': 'Delegations written on stitching elements; a second partitioning of the untouched model; loading another model into the '
-        'topology object and partitioning again; parallel links and an isolated stitching node; a delegation that only refers to a pool.',
+        'topology object and partitioning again; parallel links and an isolated stitching node; a delegation that only refers to a pool; a view kept while the model grows partitions like a fresh view.',
  'C14': 'Families whose shared ports carry only one kind of delegation, and family F2x whose copies of a shared element differ in a '
         'plain property (reference: the copy that brought the element in); family F2o with an isolated stitching node present only in the '
         'delegated models; the union built twice through the same handle; family F2e (a model that only adds a connection between shared elements); two '
